@@ -878,3 +878,11 @@ func wrappers(res *core.Result, log *core.Log, lib wkbadapt.Lib, s *Scenario, e 
 	}
 	return true
 }
+
+// ValidGeom validates a geometry tree of a scenario (shared with C04).
+func ValidGeom(g *mgeom.Geom) error {
+	if g == nil {
+		return fmt.Errorf("nil geometry")
+	}
+	return valid(g, 0)
+}
